@@ -2554,7 +2554,13 @@ class Env(cabc.MutableMapping):
         Note! If env variable wasn't explicitly set (e.g. the value has default value in ``Xettings``)
         it will be not in this list.
         """
-        if self._detyped is not None and not self._overlay_stack:
+        # The cache is shared between threads: it must neither be served to
+        # nor be filled by a thread that has its own (swapped) values.
+        if (
+            self._detyped is not None
+            and not self._overlay_stack
+            and not self._d._local
+        ):
             return self._detyped
         ctx = {}
         items = dict(self._d)
@@ -2580,7 +2586,7 @@ class Env(cabc.MutableMapping):
                 # cannot be detyped
                 continue
             ctx[key] = deval
-        if not self._overlay_stack:
+        if not self._overlay_stack and not self._d._local:
             self._detyped = ctx
         return ctx
 
